@@ -9,6 +9,7 @@ import JominiModel.Proofs.BinTapeCut
 import JominiModel.Proofs.BinTapeMirror
 import JominiModel.Proofs.BinTapeReuse
 import JominiModel.Proofs.BinTapeDropped
+import JominiModel.Proofs.BinTapeDead
 /-
 C03 — the binary tape mirrors the token stream; the fast paths are unobservable.
 Only property theorems live here; helper lemmas are in `Proofs/BinTape*.lean`.
@@ -151,6 +152,34 @@ token); that nothing else is left out on well-formed streams is `C03_faithful`. 
 theorem C03_tape_mirrors_lexemes (opt : Bool) (data : Bytes) (T : Tape) (h : parse opt data = .ok T)
     (L : List Lx) (hL : Lexes data L) : (flat T).Sublist L :=
   parse_mirror opt data T h L hL
+
+/-- **The `debug_assert!(false, …)` arms of tape.rs are unreachable** (coverage: lines 249, 658-682).
+For every input and every state `st` the plain loop reaches from the initial variables (the iteration
+heads of the optimised loop are among them, `C03_iter_sim`):
+* in `KeyValueSeparator` (`}` after a lone key → `mixed_insert1`) and in `ObjectToArray`
+  (→ `mixed_insert2`) the tape holds the one / two tokens to be moved: the "empty token tape" arms
+  (lines 658-682) cannot fire;
+* in `OpenSecond` (`=` after the first scalar of a container) and in `ArrayValue` when the
+  only_empties rewrite applies, the parent slot holds an `Array`: the "expected an array to be
+  present" arm of `set_parent_to_object` (line 249) cannot fire;
+* the two `set_parent_to_object` calls inside the key fast paths act on the `Array` pushed two
+  tokens earlier;
+and no run of either parser ends in the `ub` / `panic` outcome that models those arms. -/
+theorem C03_debug_asserts_unreachable (data : Bytes) :
+    (∀ st, Reach (init data) st →
+      (st.state = .keyValueSeparator → ∃ t', mixedInsert1 st.tape = .ok t') ∧
+      (st.state = .objectToArray → ∃ t', mixedInsert2 st.tape = .ok t') ∧
+      (st.state = .openSecond → ∃ t', setParentToObject st.tape st.parent = .ok t') ∧
+      (st.state = .arrayValue → ∀ t1 last, pop? st.tape = some (t1, last) → (∀ e, last ≠ .array e) →
+        (∀ i, last ≠ .end_ i) → ∃ t', setParentToObject t1 st.parent = .ok t')) ∧
+    (∀ (T : Tape) (p t : Nat),
+      setParentToObject (T ++ [.array p] ++ [.token t]) T.length = .ok (T ++ [.object p] ++ [.token t])) ∧
+    (∀ opt, parse opt data ≠ .error .ub ∧ parse opt data ≠ .error .panic) :=
+  ⟨fun st h => debug_asserts_excluded (reach_inv h (init_inv data)), fast_setParent_ok,
+    fun opt => C05_bintape_no_ub_panic opt data⟩
+
+example : Reach (init [0x82, 0x2d, 0x11, 0x11]) ⟨[.token 0x2d82, .token 0x1111], 0, .objectToArray, []⟩ :=
+  ⟨2, rfl⟩
 
 /-- **What the tape leaves out, exactly — for every accepted byte string, the quirk included.**  The lexeme
 list `L` of the input is an interleaving (`InterT`: both parts in their original order) of the flattened
